@@ -97,7 +97,34 @@ def reaction_step(rng, n):
     return ["MIX 1", " %d 0.5" % n, " %d 0.5" % n]
 
 
-def multi_sim_input(rng, nsims=None, user_numbers=None, allow_redefine=True, no_simno=False):
+def rich_step(rng, have):
+    """one more block for a simulation, using only entities that exist (have = set of defined solution numbers); returns (lines, new solution numbers)"""
+    k = rng.random()
+    n = rng.choice(sorted(have))
+    new = set()
+    if k < 0.15:
+        m = rng.randint(9, 14)
+        return ["COPY solution %d %d" % (n, m)], {m}
+    if k < 0.25 and len(have) > 2:
+        d = rng.choice(sorted(have - {1}))
+        return ["DELETE", " -solution %d" % d], set() if False else {-d}
+    if k < 0.40:
+        return ["RUN_CELLS", " -cells %d" % n], set()
+    if k < 0.55:
+        m = rng.randint(15, 19)
+        return ["USE solution %d" % n, "EQUILIBRIUM_PHASES 2", " Calcite 0 0.001", " CO2(g) -2.5 1", "SAVE solution %d" % m, "SAVE equilibrium_phases %d" % m], {m}
+    if k < 0.65:
+        o = rng.choice(sorted(have))
+        return ["MIX 3", " %d 0.3" % n, " %d 0.7" % o, "SAVE solution %d" % rng.randint(20, 24)], set()
+    if k < 0.78:
+        return ["USE solution %d" % n, "KINETICS 1", " Halite", " -formula NaCl 1", " -m0 0.001", " -parms 1e-6", " -steps 100 200", " -tol 1e-9",
+                "RATES", " Halite", " -start", " 10 SAVE PARM(1) * TIME", " -end", "INCREMENTAL_REACTIONS %s" % rng.choice(["true", "false"])], set()
+    if k < 0.88:
+        return ["USE solution %d" % n, "GAS_PHASE 1", " -fixed_pressure", " -pressure 1", " CO2(g) 0.01", " N2(g) 0.99"], set()
+    return ["USE solution %d" % n, "EXCHANGE 1", " X 0.01", " -equilibrate %d" % n], set()
+
+
+def multi_sim_input(rng, nsims=None, user_numbers=None, allow_redefine=True, no_simno=False, rich=False):
     """An error-free multi-simulation input with SELECTED_OUTPUT/USER_PUNCH blocks. Returns (text, info)."""
     nsims = nsims or rng.randint(1, 4)
     uns = user_numbers if user_numbers is not None else sorted(rng.sample([1, 2, 3, 5, 22, 100], rng.randint(0, 3)))
@@ -124,6 +151,18 @@ def multi_sim_input(rng, nsims=None, user_numbers=None, allow_redefine=True, no_
             L += reaction_step(rng, rng.choice(sols))
             if rng.random() < 0.3:
                 L.append("SAVE solution %d" % rng.randint(5, 8))
+        elif rich and sols and rng.random() < 0.8:
+            have = info.setdefault("have", set(sols))
+            have |= set(sols)
+            lines, new = rich_step(rng, have)
+            L += lines
+            for x in new:
+                if x < 0:
+                    have.discard(-x)
+                    if -x in sols:
+                        sols[:] = [q for q in sols if q != -x]
+                else:
+                    have.add(x)
         if rng.random() < 0.1:
             L += ["PRINT", " -selected_output %s" % rng.choice(["false", "true"])]
         if rng.random() < 0.1:
